@@ -412,3 +412,44 @@ M("C20", TR, """    for clash in id_a & id_b:
         if should_disambiguate_name(clash):""", """    for clash in id_a & id_b:
         if not should_disambiguate_name(clash):""", "filter inverted")
 M("C20", TR, """    vng = UniqueNameGenerator(id_a | id_b)""", """    vng = UniqueNameGenerator(id_a)""", "fresh names may collide with stream b's own identifiers")
+
+CO = "pymbolic/mapper/coefficient.py"
+M("C15", CO, """        other_coeffs = 1
+        for i, child_coeffs in enumerate(children_coeffs):
+            if i != idx_of_child_with_vars:
+                assert len(child_coeffs) == 1
+                other_coeffs *= child_coeffs[1]""", """        other_coeffs = 1
+        for i, child_coeffs in enumerate(children_coeffs[:2]):
+            if i != idx_of_child_with_vars:
+                assert len(child_coeffs) == 1
+                other_coeffs *= child_coeffs[1]""", "coefficient from the first two factors only")
+M("C15", CO, """                    if (idx_of_child_with_vars is not None
+                            and idx_of_child_with_vars != i):""", """                    if (idx_of_child_with_vars is not None
+                            and idx_of_child_with_vars > i):""", "nonlinearity check compares indices wrongly (still raises, KeyError: equivalent for 'it raises')", expect="MISSED")
+M("C15", CO, """                if var in result:
+                    result[var] += stride
+                else:
+                    result[var] = stride""", """                result[var] = stride""", "sum overwrites repeated variables")
+M("C15", AL, """                mat[u] = u_fac*mat[u] - i_fac*mat[i]
+                rhs[u] = u_fac*rhs[u] - i_fac*rhs[i]""", """                mat[u] = u_fac*mat[u] - i_fac*mat[i]
+                rhs[u] = u_fac*rhs[u] + i_fac*rhs[i]""", "sign lost in a row operation on the rhs")
+M("C15", AL, """        if abs(mat[nonz_row, j]) != 1:
+            raise RuntimeError(
+                    f"division with remainder in linear solve for '{unknown}'")""", """        if False:
+            raise RuntimeError(
+                    f"division with remainder in linear solve for '{unknown}'")""", "non-integrality test removed")
+M("C15", AL, """        for parameter, coeff in zip(parameters_list, rhs_mat[nonz_row]):
+            unknown_val += (int(coeff) // div) * parameter""", """        for parameter, coeff in zip(parameters_list, rhs_mat[j]):
+            unknown_val += (int(coeff) // div) * parameter""", "back-substitution reads row j (pivot of column j is always in row j when it is unique: equivalent)", expect="MISSED")
+M("C15", AL, """                ell = lcm(mat[u, j], mat[i, j])
+                u_fac = ell//mat[u, j]
+                i_fac = ell//mat[i, j]""", """                ell = mat[u, j] * mat[i, j]
+                u_fac = ell//mat[u, j]
+                i_fac = ell//mat[i, j]""", "lcm -> product (still correct: must stay silent)", expect="MISSED")
+M("C15", AL, """                    mat[i_eqn, unknown_idx_lut[key]] += lhs_factor*coeff""",
+  """                    mat[i_eqn, unknown_idx_lut[key]] = lhs_factor*coeff""", "revert of fix 2a9acf8 (accumulate)")
+M("C15", AL, """        if not mat[i_row].any() and rhs_mat[i_row].any():
+            raise RuntimeError("system of equations is inconsistent")""", """        pass""", "revert of fix 97414d8 (inconsistent systems)")
+M("C15", AL, """        if np.count_nonzero(mat[nonz_row]) != 1:
+            # the row still couples this unknown to another one
+            raise RuntimeError(f"cannot uniquely solve for '{unknown}'")""", """        pass""", "revert of fix 56e573d (under-determined)")
